@@ -190,6 +190,17 @@ CHECKS = {
    design="4 C18",
    note=COMMON_NOTE + "Histories are sampled permutations (not all interleavings); create_mutation_idempotent of DESIGN.md is checked by execution, not proved.",
    technique="Lean 4 proof for the sign/encrypt clause + stateless-model correspondence over permuted and fresh-process histories"),
+ "C19": dict(
+   text="Lean theorems about the template model (Template.root / Template.top: the description the rendered YAML loads to, index bookkeeping as list arithmetic), for all names, "
+        "versions, child names and all 2^3 presence combinations: C19_component_count, C19_indices_declared (every index of the shared sequence, validate, invoke and the literal "
+        "0 is below the number of declared components), C19_components_are_manifests + C19_dependencies_are_components, C19_fetch_has_dependency (fetched '#name' URIs = names "
+        "of the integrated dependencies, and the file whose manifest digest is verified is the file integrated under that name), C19_class_ids / C19_component_order, C19_top. "
+        "The digest equality itself is C05_dep_digest_same_bytes. Tie: the Jinja files are rendered by ncs.build.render_template over the COMPLETE finite configuration space "
+        "(7 image subsets x 3 variable settings x default / custom / YAML-significant names; top template x 3) and the loaded YAML must equal the model's Obj; the created "
+        "envelope is walked by the verifier's manifest interpreter (indices, dependencies, fetch -> integrated dependency with equal manifest digest, class ids).",
+   design="4 C19",
+   note=COMMON_NOTE + "Jinja2 / PyYAML enter through the rendered document (not modelled). Fixed findings F11, F11v (unquoted interpolation).",
+   technique="Lean 4 proof (list arithmetic over all presence combinations) + exhaustive configuration-space correspondence + manifest walk on real output"),
 }
 
 NA_REASON = "check not yet built in this revision (work in progress; DESIGN.md section 4 describes the planned model and theorems)"
